@@ -469,6 +469,13 @@ pub fn run(ctx: &Ctx) -> Report {
 }
 
 pub fn replay(ctx: &Ctx, doc: &Value) -> Result<(), Fail> {
+    if doc["stage"] == "schedule-concurrent-first-load" {
+        let mut stats = Stats::new();
+        for trial in 0..400 {
+            schedule_concurrent_first_load(ctx, [2usize, 4, 4, 8][trial % 4], trial, &mut stats)?;
+        }
+        return Ok(());
+    }
     let mut stats = Stats::new();
     match doc["stage"].as_str().unwrap_or("") {
         | "schedule-check-resolved" => {
